@@ -131,7 +131,7 @@ func (fp *factsProg) pos(p token.Pos) string {
 	return fmt.Sprintf("%s:%d", rel, ps.Line)
 }
 
-var forbiddenPrefixes = []string{"os.", "os/exec.", "net/http.", "syscall.", "math/rand.", "crypto/rand.", "io/ioutil.", "os/signal.", "os/user.", "net.Dial", "net.Lookup", "net.Listen", "net.Resolve", "time.Now", "time.Since", "time.Until", "time.Sleep", "time.After", "time.Tick", "time.NewTimer", "time.NewTicker", "runtime.GOMAXPROCS", "plugin.", "log.Fatal", "log.Panic"}
+var forbiddenPrefixes = []string{"os.", "os/exec.", "net/http.", "syscall.", "math/rand.", "crypto/rand.", "io/ioutil.", "os/signal.", "os/user.", "net.Dial", "net.Lookup", "net.Listen", "net.Resolve", "time.Now", "time.Unix", "time.UnixMilli", "time.UnixMicro", "time.LoadLocation", "time.Time.Local", "time.Time.In", "(time.Time).Local", "(time.Time).In", "time.Since", "time.Until", "time.Sleep", "time.After", "time.Tick", "time.NewTimer", "time.NewTicker", "time.AfterFunc", "runtime.GOMAXPROCS", "runtime.NumGoroutine", "runtime.NumCPU", "runtime.Gosched", "runtime.ReadMemStats", "runtime.GC", "context.WithTimeout", "context.WithDeadline", "plugin.", "log.Fatal", "log.Panic"}
 
 func isForbidden(name string) bool {
 	for _, p := range forbiddenPrefixes {
@@ -400,6 +400,9 @@ func (fp *factsProg) analyse(name, kind, typeName string, roots []*ssa.Function,
 					if !isInit {
 						addPanicSite(&lf, "panic|"+funcKey(f))
 					}
+				case *ssa.Go:
+					// a lint that starts goroutines shares whatever they touch with the caller's other work
+					lf.GlobalWrites = append(lf.GlobalWrites, fp.pos(x.Pos())+" go statement in "+f.Name())
 				case *ssa.BinOp:
 					if (x.Op == token.QUO || x.Op == token.REM) && !isInit {
 						if bt, ok := x.Y.Type().Underlying().(*types.Basic); ok && bt.Info()&types.IsInteger != 0 {
@@ -621,6 +624,8 @@ func computeFacts() ([]LintFacts, map[string]interface{}, error) {
 					if _, ok := rootOf(x.Map, 0).(*ssa.Global); ok {
 						gw = append(gw, fp.pos(x.Pos())+" map "+rootOf(x.Map, 0).Name())
 					}
+				case *ssa.Go:
+					gw = append(gw, fp.pos(x.Pos())+" go statement in "+f.Name())
 				case ssa.CallInstruction:
 					if callee := x.Common().StaticCallee(); callee != nil {
 						n := funcName(callee)
